@@ -58,6 +58,17 @@ PROPS = {
             'requests are delivered whole; fragmentation is C10',
         ],
     },
+    'C06': {
+        'engine': 'simd', 'profile': 'C06', 'level': 'fault_enumeration',
+        'rules': ['R-SPOOL', 'R-DURABLE', 'R-CLEAN', 'R-SNAP', 'R-RESTART', 'R-ONCE', 'R-SPUR', 'R-LIST', 'R-CRASHFREE'],
+        'gopts': {'property': 'C06'}, 'mopts': {},
+        'quick': {'budget': 55, 'runs': 100000}, 'thorough': {'budget': 900, 'runs': 10000000},
+        'assumptions': [
+            '"crash" is a crash of the echsd process (only what the kernel has survives); power loss without fsync is out of scope, echsd never calls fsync',
+            'a completed checkpoint for a user is defined by the observable event renameat() returned 0 for that user\'s file',
+            'histories (request sequences) are sampled; the crash and fault positions of each sampled history are enumerated completely',
+        ],
+    },
 }
 
 
